@@ -1082,6 +1082,8 @@ typedef struct {
   uint32_t switch_ins;
   uint32_t wakeups;
   uint32_t schedules;
+  int q_owner;          /* kernel thread that owns the run queue currently holding it (-1: none / unknown) */
+  uint64_t q_pushed_at; /* fiber switches on that thread when it was pushed there */
 } gf_t;
 static gf_t G[MAXF];
 static int ng;
@@ -1123,6 +1125,11 @@ int sim_fiber_dead(void* f) {
 int sim_fiber_switch_ins(void* f) {
   int i = gfind(f);
   return i >= 0 ? (int)G[i].switch_ins : 0;
+}
+long sim_fiber_bypassed(void* f) {
+  int i = gfind(f);
+  if (i < 0 || !G[i].inq || G[i].q_owner < 0) return -1;
+  return (long)(fsw_thread[G[i].q_owner] - G[i].q_pushed_at);
 }
 int sim_fiber_wakeups(void* f) {
   int i = gfind(f);
@@ -1264,6 +1271,8 @@ void __wrap_wsd_work_stealing_deque_push_bottom(void* d, void* p) {
     int i = gidx(p);
     if (G[i].inq) sim_violation("C02-slot-duplicate", "fiber #%d pushed to a run queue while already in one", i);
     G[i].inq = 1;
+    G[i].q_owner = me; /* only the owning kernel thread pushes to a run queue */
+    G[i].q_pushed_at = fsw_thread[me];
   }
   __real_wsd_work_stealing_deque_push_bottom(d, p);
 }
@@ -1273,6 +1282,7 @@ static void* ghost_taken(void* r, const char* how) {
     if (i < 0) sim_violation("C02-queue-invented", "%s returned %p which was never pushed", how, r);
     if (!G[i].inq) sim_violation("C02-slot-taken-twice", "%s returned fiber #%d which is not in any run queue (taken twice)", how, i);
     G[i].inq = 0;
+    G[i].q_owner = -1;
   }
   return r;
 }
